@@ -110,7 +110,10 @@ impl Prop for C05 {
         station.id_policy = match rng.below(5) {
             0 => IdPolicy::Absent,
             1 | 2 => IdPolicy::Fixed(rng.below(10) as u8),
-            3 => IdPolicy::Fixed(rng.range(10, 255) as u8),
+            3 => {
+            let any = rng.range(10, 255) as u8;
+            IdPolicy::Fixed(*rng.pick(&[10u8, 99, 100, 255, 255, any]))
+        }
             _ => IdPolicy::SmallPool,
         };
         // a deliberately chosen prior state right before the group
@@ -220,7 +223,29 @@ impl Prop for C05 {
     }
 
     fn judge(&self, sc: &Scenario, mut st: Option<&mut Stats>) -> Option<Violation> {
-        judge_build(sc, Build::Std, &mut st).or_else(|| judge_build(sc, Build::Alloc, &mut None))
+        let v = judge_build(sc, Build::Std, &mut st).or_else(|| judge_build(sc, Build::Alloc, &mut None));
+        if v.is_some() {
+            return v;
+        }
+        // the no-alloc build too, whenever the heal group stays within its fixed capacities
+        // (384 payload bytes per line and per group; 119 bytes of binary data, 20 characters
+        // of text when the final fragment is decoded) - beyond them it may reject (C18)
+        let mut total: Vec<u8> = Vec::new();
+        let mut decode_final = false;
+        for op in &sc.ops {
+            if let Op::Line(l) = op {
+                if let (Role::Heal { .. }, Some(s)) = (&l.role, &l.sent) {
+                    total.extend_from_slice(&s.piece);
+                    decode_final = l.decode;
+                }
+            }
+        }
+        if total.len() <= super::c18::CAP_PAYLOAD
+            && !(decode_final && super::c18::decode_capacity_exceeded(&total).is_some())
+        {
+            return judge_build(sc, Build::None, &mut None);
+        }
+        None
     }
 }
 
